@@ -1,3 +1,112 @@
-/- C05 — property theorems only (helper lemmas live in `Rooc/Proofs`). -/
+/-
+C05 — Solver verdicts and optimal values are correct.  PROPERTY THEOREMS ONLY.
+
+The external solvers are parameters; what is proved here is that every verdict the exact oracle hands to a
+comparison is justified: the three certificate checkers of `Rooc/Cert.lean` are SOUND over every linearly ordered
+field `K` (so in particular over ℝ and over the `Rat` the oracle runs at).  `LpFeasible`, `RowSat`, `BndsSat` are
+the semantics of DESIGN.md appendix A (`Rooc/Proofs/Cert.lean`).
+-/
+import Rooc.Proofs.Cert
+import Mathlib.Data.Rat.Floor
 namespace Rooc.Props.C05
+open Rooc Rooc.Cert
+
+variable {K : Type} [Field K] [LinearOrder K] [IsStrictOrderedRing K] [FloorRing K]
+
+/-- Weak duality, the common core: if `dualBound` accepts the multipliers `y` (sign conditions, finite bounds where
+needed) then its value is below the objective of EVERY feasible point. -/
+theorem weak_duality (lp : LP K) (y x : List K) (v : K)
+    (h : dualBound lp.obj lp.rows lp.bnds y = some v) (hx : LpFeasible lp x) : v ≤ dot lp.obj x := by
+  have hlen : lp.obj.length = x.length := by
+    rw [dualBound_length h, bndsSat_length x lp.bnds hx.2]
+  exact dualBound_le lp.obj lp.rows lp.bnds y x v hlen h hx.1 hx.2
+
+/-- An accepted optimality certificate (primal point + dual multipliers with equal objectives) proves that the
+point is feasible and that NO feasible point has a smaller objective. -/
+theorem optimal_cert_sound (lp : LP K) (x y : List K) (h : checkOptimal lp x y = true) :
+    LpFeasible lp x ∧ ∀ x', LpFeasible lp x' → dot lp.obj x ≤ dot lp.obj x' := by
+  unfold checkOptimal at h
+  simp only [Bool.and_eq_true, decide_eq_true_eq] at h
+  obtain ⟨⟨_, hfeas⟩, hb⟩ := h
+  refine ⟨lpFeasible_sound hfeas, fun x' hx' => ?_⟩
+  cases hd : dualBound lp.obj lp.rows lp.bnds y with
+  | none => simp [hd] at hb
+  | some v =>
+    simp [hd] at hb
+    exact le_trans hb (weak_duality lp y x' v hd hx')
+
+/-- An accepted infeasibility certificate (Farkas multipliers, or a variable with an empty range) proves that the
+problem has no feasible point. -/
+theorem infeasible_cert_sound (lp : LP K) (c : InfeasCert K) (h : checkInfeasible lp c = true) :
+    ¬ ∃ x, LpFeasible lp x := by
+  rintro ⟨x, hx⟩
+  cases c with
+  | farkas y =>
+    simp only [checkInfeasible] at h
+    cases hd : dualBound (zerosLike lp.obj) lp.rows lp.bnds y with
+    | none => simp [hd] at h
+    | some v =>
+      simp [hd] at h
+      have hlen : (zerosLike lp.obj).length = x.length := by
+        rw [dualBound_length hd, bndsSat_length x lp.bnds hx.2]
+      have := dualBound_le (zerosLike lp.obj) lp.rows lp.bnds y x v hlen hd hx.1 hx.2
+      rw [dot_zerosLike] at this
+      exact absurd h (not_lt.mpr this)
+  | emptyBound j =>
+    simp only [checkInfeasible] at h
+    cases hb : lp.bnds[j]? with
+    | none => simp [hb] at h
+    | some b =>
+      simp only [hb] at h
+      obtain ⟨xj, hxj⟩ := bndsSat_get x lp.bnds j b hx.2 hb
+      unfold emptyBnd at h
+      cases hlo : b.lo with
+      | none => simp [hlo] at h
+      | some l =>
+        cases hhi : b.hi with
+        | none => simp [hlo, hhi] at h
+        | some u =>
+          simp [hlo, hhi] at h
+          have h1 := hxj.1 l hlo
+          have h2 := hxj.2 u hhi
+          exact absurd (le_trans h1 h2) (not_le.mpr h)
+
+/-- An accepted unboundedness certificate (feasible point + improving recession direction) proves that the problem
+is feasible and that its objective has no lower bound on the feasible set. -/
+theorem unbounded_cert_sound (lp : LP K) (x r : List K) (h : checkUnbounded lp x r = true) :
+    LpFeasible lp x ∧ ∀ M : K, ∃ x', LpFeasible lp x' ∧ dot lp.obj x' < M := by
+  unfold checkUnbounded at h
+  simp only [Bool.and_eq_true, decide_eq_true_eq, List.all_eq_true] at h
+  obtain ⟨⟨⟨⟨⟨_, hlen⟩, hfeas⟩, hrows⟩, hbnds⟩, hneg⟩ := h
+  have hx := lpFeasible_sound hfeas
+  refine ⟨hx, fun M => ?_⟩
+  simp only [ef_lt, ef_ofInt, Int.cast_zero, decide_eq_true_eq] at hneg
+  set g := dot lp.obj r with hg
+  have hs : 0 < -g := by linarith
+  let t : K := |dot lp.obj x - M| / (-g) + 1
+  have ht : 0 ≤ t := by positivity
+  refine ⟨move x r t, ⟨fun row hrow => rayRow_move ht hlen (hrows row hrow) (hx.1 row hrow),
+    rayBnds_move x r lp.bnds t ht hbnds hx.2⟩, ?_⟩
+  rw [dot_move _ _ _ _ hlen, ← hg]
+  have h1 : t * (-g) = |dot lp.obj x - M| + (-g) := by
+    have hne : -g ≠ 0 := ne_of_gt hs
+    simp only [t]; rw [add_mul, div_mul_cancel₀ _ hne]; ring
+  have h2 : dot lp.obj x - M ≤ |dot lp.obj x - M| := le_abs_self _
+  nlinarith
+
+/-! ### non-vacuity: the hypotheses are satisfiable (`K = ℚ`) -/
+
+/-- `min x  s.t.  x ≥ 1`, `x` free: optimum at `x = 1` with multiplier `1`. -/
+example : @checkOptimal ℚ (fieldExact ℚ) ⟨[1], [⟨[1], .ge, 1⟩], [⟨none, none⟩]⟩ [1] [1] = true := by
+  simp [checkOptimal, lpFeasible, rowHolds, bndsHold, bndHolds, loHolds, hiHolds, dualBound, reduce, signOk,
+    rowSub, bndSum, bndTerm]
+
+/-- `x ≤ 0` and `x ≥ 1`: Farkas multipliers `(-1, 1)`. -/
+example : @checkInfeasible ℚ (fieldExact ℚ) ⟨[0], [⟨[1], .le, 0⟩, ⟨[1], .ge, 1⟩], [⟨none, none⟩]⟩ (.farkas [-1, 1]) = true := by
+  simp [checkInfeasible, zerosLike, dualBound, reduce, signOk, rowSub, bndSum, bndTerm]
+
+/-- `min x`, `x ≤ 0`: the ray `-1` from the point `0`. -/
+example : @checkUnbounded ℚ (fieldExact ℚ) ⟨[1], [⟨[1], .le, 0⟩], [⟨none, none⟩]⟩ [0] [-1] = true := by
+  simp [checkUnbounded, lpFeasible, rowHolds, bndsHold, bndHolds, loHolds, hiHolds, rayRow, rayBnds]
+
 end Rooc.Props.C05
